@@ -325,6 +325,13 @@ def apply_move(m: dict, heap: list, colmap: dict, pool: dict | None = None):
         if len(on) == 1:
             on = on[0]
         return t >> join(r, on, m["how"], **kw)
+    if v == "transfer":
+        s = heap[m["j"] - 1]
+        if s is None:
+            raise MissingRef(("table", m["j"]))
+        return pdt.transfer_col_references(t, s)
+    if v == "getname":
+        return t[b.ref(m["c"])].name
     if v == "union":
         r = heap[m["j"] - 1]
         if r is None:
